@@ -24,6 +24,10 @@ def _exec_chunk(items):
                 text0 = it['text']
                 db0 = PyDBML(text0, allow_properties=it['allow'])
                 m = pj.project_db(db0)
+            elif it['route'].startswith('morphed'):
+                db0 = builder.build_morphed(m, it['route'].split(':')[1].split('+'))
+            elif it['route'] == 'moved':
+                db0 = builder.build_moved(m)
             elif it['route'] == 'parsed':
                 text0 = print_doc(it['doc'], it['fseed'], it['pinned'])
                 db0 = PyDBML(text0, allow_properties=m['allowprops'])
